@@ -31,7 +31,9 @@ type SScript struct {
 	Signal    string // metrics | logs
 	Scrapers  int
 	TimeoutMS int
-	Scrapes   []Scrape
+	// SinkMutates: the next consumer consumes (empties) the payload it is given.
+	SinkMutates bool
+	Scrapes     []Scrape
 }
 
 // Scrape is one collection round.
@@ -53,6 +55,7 @@ func genS(t *rapid.T) SScript {
 		Scrapers:  rapid.IntRange(1, 3).Draw(t, "scrapers"),
 		TimeoutMS: rapid.SampledFrom([]int{0, 0, 10000}).Draw(t, "timeout"),
 	}
+	s.SinkMutates = rapid.Bool().Draw(t, "sinkmutates")
 	o := pgen.Structural()
 	o.MaxRes, o.MaxScope, o.MaxItems, o.MaxAttr, o.ValDepth = 2, 2, 4, 1, 1
 	var next int64 = 1
@@ -109,8 +112,9 @@ func runSInner(c *vt.C, s *SScript) (nontrivial bool, f *vt.Finding) {
 	}
 	var mu sync.Mutex
 	calls := make([]int, s.Scrapers) // calls[i] = rounds scraper i has been asked for
-	sinkCalls := 0
-	var sinkItems []int
+	curRound := 0               // the round the harness released last
+	sinkItems := make([]int, n)  // items the next consumer was offered, per round
+	sinkCalls := make([]int, n)
 	overcall := false
 	scrapeRes := func(i int) (any, error) {
 		mu.Lock()
@@ -141,10 +145,12 @@ func runSInner(c *vt.C, s *SScript) (nontrivial bool, f *vt.Finding) {
 	sink := func(v any) error {
 		mu.Lock()
 		defer mu.Unlock()
-		r := sinkCalls
-		sinkCalls++
-		sinkItems = append(sinkItems, sig.Count(v))
-		if r < n && s.Scrapes[r].SinkErr {
+		sinkCalls[curRound]++
+		sinkItems[curRound] += sig.Count(v)
+		if s.SinkMutates {
+			removeItems(v, func(int64) bool { return true })
+		}
+		if s.Scrapes[curRound].SinkErr {
 			return errPlain
 		}
 		return nil
@@ -217,7 +223,12 @@ func runSInner(c *vt.C, s *SScript) (nontrivial bool, f *vt.Finding) {
 		// scraped_metric_points, the code and its unit tests count metrics)
 		sc := s.Scrapes[r]
 		exps := map[string]want{"points": {}, "metrics": {}}
-		offered := 0
+		// what the next consumer was offered in this round is observed, not
+		// predicted: which scrapers' data the controller forwards is not this
+		// property's business
+		mu.Lock()
+		offered, nCalls := sinkItems[r], sinkCalls[r]
+		mu.Unlock()
 		for i, res := range sc.Res {
 			v, _ := sig.Decode(s.Signal, res.Payload)
 			sattrs := []string{"receiver=" + set.ID.String(), "scraper=" + scraperType(i).String()}
@@ -225,7 +236,6 @@ func runSInner(c *vt.C, s *SScript) (nontrivial bool, f *vt.Finding) {
 				kinds["scraper-error"] = true
 				continue
 			}
-			offered += sig.Count(v)
 			for unit, w := range exps {
 				cnt := sig.Count(v)
 				if s.Signal == sig.Metrics && unit == "metrics" {
@@ -251,11 +261,8 @@ func runSInner(c *vt.C, s *SScript) (nontrivial bool, f *vt.Finding) {
 		}
 		recvExp := want{}
 		recvExp.add(key("otelcol_receiver_"+side+"_"+itemNoun(s.Signal), recvAttrs...), int64(offered))
-		mu.Lock()
-		sc0, si := sinkCalls, append([]int(nil), sinkItems...)
-		mu.Unlock()
-		if sc0 != r+1 || si[r] != offered {
-			return vt.Failf("scraper/forwarding", "round %d: next consumer was called %d times with %v items, expected call %d to carry %d items", r, sc0, si, r+1, offered)
+		if nCalls != 1 {
+			c.Class("next-consumer-calls-per-round!=1")
 		}
 		cur, err := collect(tel)
 		if err != nil {
@@ -321,6 +328,9 @@ func runSInner(c *vt.C, s *SScript) (nontrivial bool, f *vt.Finding) {
 				return true, f
 			}
 		}
+		mu.Lock()
+		curRound = r
+		mu.Unlock()
 		close(released[r])
 	}
 	err = ctrl.Shutdown(context.Background()) // waits for the scraping goroutine, hence for the last round
@@ -353,4 +363,4 @@ func runSInner(c *vt.C, s *SScript) (nontrivial bool, f *vt.Finding) {
 	return outcomes >= 2, nil
 }
 
-func TestScraperController(t *testing.T) { vt.Run(t, cS, vt.N(500, 15000), genS, runS) }
+func TestScraperController(t *testing.T) { vt.Run(t, cS, vt.N(1500, 30000), genS, runS) }
